@@ -336,6 +336,9 @@ func (c *c05) checkContents(what string, idx []int, pred int, s *attribute.Set, 
 			break
 		}
 	}
+	if _, ok := s.Get(-1); ok {
+		r.FailHere("get-out-of-range|"+what, c.caseDesc(idx, pred), "Get(-1) reports an attribute")
+	}
 	if _, ok := s.Get(n); ok || n != len(sl) || it.Len() != len(sl) {
 		r.FailHere("iter|"+what, c.caseDesc(idx, pred), "Iter visited %d of %d (Len %d)", n, len(sl), it.Len())
 	}
@@ -437,7 +440,7 @@ func TestVerifC05(t *testing.T) {
 	for i := range al {
 		jobs = append(jobs, fmt.Sprintf("first=%02d", i))
 	}
-	jobs = append(jobs, "pairs", "long", "encode")
+	jobs = append(jobs, "pairs", "long", "encode", "zero")
 	enum.Jobs(jobs, func(job string) {
 		r := enum.Start("C05", "set")
 		defer r.Finish()
@@ -514,6 +517,63 @@ func TestVerifC05(t *testing.T) {
 						c.merge(all[i], all[j])
 					}
 				}
+			}
+		case job == "zero":
+			// the four spellings of "no attributes": the zero value, a nil pointer, EmptySet() and NewSet()
+			// must behave as the empty set in every lookup, iteration, identity and encoding
+			r.Section(job)
+			var zero attribute.Set
+			var nilp *attribute.Set
+			built := attribute.NewSet()
+			viaFilter, _ := attribute.NewSetWithFiltered([]attribute.KeyValue{attribute.Int("a", 1)}, func(attribute.KeyValue) bool { return false })
+			forms := []struct {
+				name string
+				s    *attribute.Set
+			}{{"zero-value", &zero}, {"nil-pointer", nilp}, {"EmptySet()", attribute.EmptySet()}, {"NewSet()", &built}, {"all-filtered-out", &viaFilter}}
+			for _, f := range forms {
+				if !r.Want() {
+					continue
+				}
+				r.Eval()
+				func() {
+					defer func() {
+						if p := recover(); p != nil {
+							r.FailHere("panic|empty set form "+f.name, f.name, "panic: %v", p)
+						}
+					}()
+					c.checkContents("empty:"+f.name, nil, -1, f.s, map[string]int{})
+					for _, i := range []int{0, 1, -1, 1 << 40} {
+						if kv, ok := f.s.Get(i); ok || kv.Key != "" || kv.Value.Type() != attribute.INVALID {
+							r.FailHere("get-out-of-range|empty:"+f.name, f.name, "Get(%d) on an empty set = %v, %v", i, kv, ok)
+						}
+					}
+					if v, ok := f.s.Value("a"); ok || v.Type() != attribute.INVALID || f.s.HasValue("a") {
+						r.FailHere("lookup|empty:"+f.name, f.name, "Value/HasValue find a key in an empty set")
+					}
+					for _, g := range forms {
+						if !f.s.Equals(g.s) || f.s.Equivalent() != g.s.Equivalent() {
+							r.FailHere("identity|empty forms differ", f.name+" vs "+g.name, "two empty sets are not Equal / have different Equivalent()")
+						}
+					}
+					one := attribute.NewSet(attribute.Int("a", 1))
+					if f.s.Equals(&one) || one.Equals(f.s) {
+						r.FailHere("identity|empty equals non-empty", f.name, "empty set Equals {a=1}")
+					}
+					if f.s != nil {
+						if m, ok := f.s.MarshalLog().(map[string]string); !ok || len(m) != 0 {
+							r.FailHere("marshal|empty:"+f.name, f.name, "MarshalLog = %v", f.s.MarshalLog())
+						}
+						kept, dropped := f.s.Filter(func(attribute.KeyValue) bool { return true })
+						if kept.Len() != 0 || len(dropped) != 0 {
+							r.FailHere("filter|empty:"+f.name, f.name, "Filter of an empty set: kept %d dropped %d", kept.Len(), len(dropped))
+						}
+						kept, dropped = f.s.Filter(nil)
+						if kept.Len() != 0 || len(dropped) != 0 {
+							r.FailHere("filter|empty:"+f.name, f.name, "Filter(nil) of an empty set: kept %d dropped %d", kept.Len(), len(dropped))
+						}
+					}
+					r.Outcome("empty:" + f.name)
+				}()
 			}
 		case job == "encode":
 			// default encoder: every key and STRING value over {x, =, ",", backslash, é, 名, 😀} up to length 2 (3 for the four ASCII ones)
